@@ -19,17 +19,18 @@ META = {
             "checked against each other by TLC), the harness projection. Not yet produced: object streams, filtered xref streams "
             "(covered for multi-revision files by C07 when built). Files are sampled by TLC's simulator from VERIF_SEED.",
     "bins": ["c02"],
-    "modules": ["MC_Syntax.tla", "Gen_File.tla", "Trace_Lifecycle.tla"],
+    "modules": ["MC_Syntax.tla", "Gen_File.tla", "Trace_Lifecycle.tla", "MC_FileBeyond.tla"],
     "design_ref": "DESIGN.md section 4 C02",
 }
 
 PRODUCER_ACTIONS = ["EmitTok", "XNull", "XBool", "XInt", "XReal", "XName", "XLit", "XHex", "XRef", "XArr", "XDict"]
 
 
-def gen_files(w, tag, ndocs, nfiles, seed, max_objects=6, max_revs=1, cfg="Gen_File.cfg", deep=False):
+def gen_files(w, tag, ndocs, nfiles, seed, max_objects=6, max_revs=1, cfg="Gen_File.cfg", deep=False, free=False):
     """seeded abstract documents (histories when max_revs > 1) -> TLC Producer in simulation mode -> files"""
     docs = os.path.join(w, "docs-%s.ndjson" % tag)
-    run_bin("c02", ["docs", "--seed", seed, "--n", ndocs, "--max-objects", max_objects, "--max-revs", max_revs, "--deep", 1 if deep else 0, "--out", docs])
+    run_bin("c02", ["docs", "--seed", seed, "--n", ndocs, "--max-objects", max_objects, "--max-revs", max_revs, "--deep", 1 if deep else 0, "--out", docs]
+            + (["--free", 1] if free else []))
     r = tlc("Gen_File.tla", cfg, workers=1, simulate=nfiles, depth=8000, env=dict(DOCS=docs), timeout=3000,
             name="genfile-" + tag, xmx="3g", seed_override=seed & 0x7FFFFFFF)
     return r, r.tagged("REPLAY")
@@ -119,7 +120,188 @@ def run(tier):
     if vs[1]["v"].startswith("ok"):
         raise vlib.ToolError("negative control accepted: corrupted loaded string not detected")
     chk.extra["negative_controls_rejected"] = 1
+    try:
+        beyond_the_statement(chk, w, tier)
+    except vlib.ToolError as e:
+        # trouble in the phase beyond the statement must not mask a violation of the statement itself
+        if not chk.violations:
+            raise
+        vlib.log("beyond-the-statement phase abandoned (%s); reporting the violations found before it" % e)
     return chk.finish()
+
+
+# ---------------------------------------------------------------------------------------------------------------
+# Beyond the statement of C02.  The property's quantifier leaves two legal features of ISO 32000-1 7.5.4 / 7.5.8.4
+# outside its claimed domain: free entries (an update deletes an object) and hybrid-reference files (table +
+# XRefStm).  The specification covers both (Revisions: `free`; SyntaxProducer: knobs hybrid/hycont/hyself/hymark/
+# flink; FileStructure: the StrictReader reads them; Gen_File: RoundTrip, and the loader-shaped lookup model with one
+# switch per deviation read off reader.rs).  This phase binds that part of the specification to lopdf:
+#   * MC_FileBeyond: RoundTrip + ImplRefines exhaustively over the structural knobs for small histories,
+#   * Gen_File_{free,hybrid,beyond}.cfg: TLC simulation with every lexical freedom (RoundTrip + ImplRefines on each file),
+#   * every file and every prefix that ends at a revision boundary is loaded by lopdf and judged by Trace_Lifecycle
+#     (Lifecycle!JudgeLoad against the strict reading), and the verdict is compared with what the loader-shaped
+#     model predicted for that file.
+# Nothing in here can produce a VIOLATION or change the exit code: these inputs are outside the statement.  A
+# disagreement between lopdf and the declared view is reported as MODEL-DRIFT with the deviation(s) it is owed to;
+# machinery trouble (a Producer file the StrictReader rejects, a vacuous run) is a ToolError as everywhere else.
+DEVIATIONS = {
+    "needsprev": "XRefStm is read only when the newest trailer also has Prev",
+    "afterprev": "the XRefStm stream is merged after the section Prev names (lookup order table, Prev, XRefStm)",
+    "newestonly": "only the newest trailer's XRefStm is used, never the XRefStm of an older section",
+    "freeignored": "free entries (`f` / type 0) are not recorded: an object deleted by an update comes back",
+}
+
+
+def beyond_the_statement(chk, w, tier):
+    quick = tier == "quick"
+    # (M) exhaustive over the structural knobs, lexical choices pinned; the files are also emitted
+    cfg = os.path.join(w, "MC_FileBeyond_emit.cfg")
+    src = open(os.path.join(vlib.SPEC, "MC_FileBeyond_quick.cfg" if quick else "MC_FileBeyond_thorough.cfg")).read()
+    src = src.replace("Emit = FALSE", "Emit = TRUE").replace("INVARIANTS RoundTrip ImplRefines", "INVARIANTS RoundTrip ImplRefines EmitInv")
+    if "Emit = TRUE" not in src or "EmitInv" not in src:
+        raise vlib.ToolError("MC_FileBeyond configuration has an unexpected shape")
+    open(cfg, "w").write(src)
+    jobs = [("mc", None)]
+    if quick:
+        jobs += [("bf", ("Gen_File_free.cfg", 24, 40, vlib.seed() + 21)), ("bh", ("Gen_File_hybrid.cfg", 24, 40, vlib.seed() + 22)),
+                 ("bb", ("Gen_File_beyond.cfg", 24, 50, vlib.seed() + 23))]
+    else:
+        for i in range(4):
+            jobs += [("bf%d" % i, ("Gen_File_free.cfg", 60, 300, vlib.seed() * 41 + i)), ("bh%d" % i, ("Gen_File_hybrid.cfg", 60, 300, vlib.seed() * 43 + i)),
+                     ("bb%d" % i, ("Gen_File_beyond.cfg", 60, 400, vlib.seed() * 47 + i))]
+
+    def one(job):
+        tag, a = job
+        if a is None:
+            r = tlc("MC_FileBeyond.tla", cfg, workers=4 if quick else 12, timeout=3000, xmx="6g", name="mcfilebeyond")
+            return tag, r, r.tagged("REPLAY")
+        r, cases = gen_files(w, tag, a[1], a[2], a[3], 6, 3, cfg=a[0], free=True)
+        return tag, r, cases
+
+    with ThreadPoolExecutor(max_workers=7) as ex:
+        res = list(ex.map(one, jobs))
+    mc_files, sim_files = [], []
+    for tag, r, cases in res:
+        chk.add_tlc(r)
+        for f in cases:
+            f["origin"] = tag
+        (mc_files if tag == "mc" else sim_files).extend(cases)
+    chk.extra["beyond_statement_mc_states"] = [r.distinct for tag, r, _ in res if tag == "mc"][0]
+    chk.extra["beyond_statement_mc_files"] = len(mc_files)
+    # the exhaustive files are many and small: all of them in the thorough tier, a deterministic sample in quick
+    mc_files.sort(key=lambda f: json.dumps([f[k] for k in ("doc", "xref", "order", "w", "sfilter", "hybrid", "hycont", "hyself", "hymark", "flink")]))
+    files = sim_files + (mc_files[::7] if quick else mc_files)
+    # anti-vacuity, from the inputs only
+    classes = collections.Counter()
+    for f in mc_files + sim_files:
+        n = f["nrevs"]
+        classes["hybrid"] += bool(f["hybrid"])
+        classes["hybrid-without-prev"] += f["hybrid"] == [1] and n == 1
+        classes["hybrid-newest-with-prev"] += n > 1 and n in f["hybrid"]
+        classes["hybrid-older"] += any(r < n for r in f["hybrid"])
+        classes["hidden-in-table"] += bool(f["hybrid"]) and (f["hycont"] == "intable" or f["hyself"] == "intable")
+        classes["hidden-unlisted"] += bool(f["hybrid"]) and f["hymark"] == "unlisted"
+        classes["free-in-table"] += f["nfree"] > 0 and f["xref"].startswith("table")
+        classes["free-in-stream"] += f["nfree"] > 0 and f["xref"].startswith("stream")
+        classes["free-list-chained"] += f["flink"] == "chain"
+        classes["number-used-again"] += f["reused"] > 0
+        for d in DEVIATIONS:
+            classes["predicts-" + d] += any(d in p["owedto"] for p in f["pred"])
+    chk.extra["beyond_statement_input_classes"] = dict(classes)
+    empty = sorted(k for k in ("hybrid", "hybrid-without-prev", "hybrid-newest-with-prev", "hybrid-older", "hidden-in-table", "hidden-unlisted",
+                               "free-in-table", "free-in-stream", "free-list-chained", "number-used-again") if classes[k] == 0)
+    if empty:
+        raise vlib.ToolError("vacuous (beyond the statement): no generated file of class %s" % empty)
+    fin, tr = os.path.join(w, "beyond-files.ndjson"), os.path.join(w, "beyond-trace.ndjson")
+    write_ndjson(fin, files)
+    run_bin("c02", ["load", "--in", fin, "--out", tr])
+    recs = read_ndjson(tr)
+    bounds = [i for i, r in enumerate(recs) if r["ev"] == "File"]
+    verdicts, states, trans = vlib.validate_trace("Trace_Lifecycle.tla", "Trace_Lifecycle.cfg", recs, "c02-beyond",
+                                                  boundaries=bounds, chunks=4 if quick else 12)
+    chk.states += states
+    chk.transitions += trans
+    if len(verdicts) != len(recs):
+        raise vlib.ToolError("trace validator judged %d of %d events (beyond the statement)" % (len(verdicts), len(recs)))
+    drift = collections.Counter()
+    examples = {}
+    loads = as_declared = as_predicted = lit_eol = 0
+    for v in verdicts:
+        rec = recs[v["i"]]
+        if rec["ev"] == "File":
+            if not v["v"].startswith("ok"):
+                raise vlib.ToolError("StrictReader rejects a Producer file (beyond the statement): %s" % v["d"])
+            continue
+        fl = recs[v["i"] - 1]
+        f = files[fl["case"]]
+        j = f["nrevs"] - fl["prefix"]            # the prefix ends after revision j
+        p = f["pred"][j - 1]
+        loads += 1
+        owed = "+".join(sorted(p["owedto"]))
+        v, lit = without_known_lit_eol(v)
+        lit_eol += lit
+        outcome = compare_with_prediction(v, p)
+        if v["v"].startswith("ok"):
+            as_declared += 1
+            if outcome != "as-predicted":
+                # lopdf returns the declared view although the model of its reader predicts a deviation
+                cls = "beyond.not-reproduced.%s" % (owed or "interaction")
+            else:
+                continue
+        elif outcome == "as-predicted":
+            as_predicted += 1
+            cls = "beyond.%s" % (owed or "interaction")
+        else:
+            cls = "beyond.unexplained.%s" % v["v"]
+        drift[cls] += 1
+        if cls not in examples or len(fl["bytes"]) < examples[cls]["len"]:
+            examples[cls] = {"len": len(fl["bytes"]), "class": cls, "verdict": {k: x for k, x in v["d"].items() if k != "why"},
+                             "predicted": {k: p[k] for k in ("missing", "stale", "extra", "owedto")},
+                             "knobs": {k: f[k] for k in ("xref", "hybrid", "hycont", "hyself", "hymark", "flink", "nrevs", "origin")},
+                             "ends_after_revision": j, "file_ascii": bytes(fl["bytes"]).decode("latin-1")[:1500]}
+    chk.extra["beyond_statement_files"] = len(files)
+    chk.extra["beyond_statement_loads"] = loads
+    chk.extra["beyond_statement_loads_as_declared"] = as_declared
+    chk.extra["beyond_statement_loads_deviating_as_modelled"] = as_predicted
+    chk.extra["beyond_statement_loads_showing_known_lit_rawCR"] = lit_eol
+    chk.extra["beyond_statement_model_drift"] = dict(drift)
+    chk.extra["beyond_statement_deviations"] = DEVIATIONS
+    chk.extra["beyond_statement_examples"] = sorted(examples.values(), key=lambda e: e["class"])[:8]
+    for cls, n in sorted(drift.items()):
+        vlib.log("MODEL-DRIFT: property=C02 %s (%d files)" % (cls, n))
+
+
+def without_known_lit_eol(v):
+    """The lexical deviation C02:lit.rawCR (a known finding of the statement proper) also shows in these files.  It is
+    taken out of the verdict here: objects whose only difference is `lit-eol` (Lifecycle!WhyObject), a trailer that
+    equals the reading without end-of-line normalisation."""
+    d = v["d"]
+    if v["v"] == "load-trailer-differs" and d.get("verbatim") is True:
+        return {"v": "ok-but-lit-eol", "d": {"v": "ok-but-lit-eol"}, "i": v["i"]}, 1
+    if v["v"] == "load-object-differs":
+        lit = {x["num"] for x in d["why"] if x["why"] == "lit-eol"}
+        if lit:
+            rest = sorted(set(d["nums"]) - lit)
+            if not rest:
+                return {"v": "ok-but-lit-eol", "d": {"v": "ok-but-lit-eol"}, "i": v["i"]}, 1
+            return {"v": v["v"], "d": dict(d, nums=rest, why=[x for x in d["why"] if x["num"] not in lit]), "i": v["i"]}, 1
+    return v, 0
+
+
+def compare_with_prediction(v, p):
+    """does the verdict of Lifecycle!JudgeLoad equal what the loader-shaped model (Gen_File!Prediction, all deviations on)
+    says lopdf returns?  JudgeLoad reports the first failing clause only: missing objects, then objects that differ from
+    the view or that the view does not have (stale and resurrected ones), so the comparison follows that order."""
+    d = v["d"]
+    nums = sorted(d.get("nums", []))
+    if p["missing"]:
+        ok = v["v"] == "load-object-missing" and nums == p["missing"]
+    elif p["stale"] or p["extra"]:
+        # a stale copy can coincide with the newest value; a stream whose Length object is stale may or may not differ
+        ok = v["v"] == "load-object-differs" and set(p["extra"]) <= set(nums) <= set(p["stale"]) | set(p["extra"]) | set(p["maybe"])
+    else:
+        ok = v["v"].startswith("ok") or (v["v"] == "load-object-differs" and set(nums) <= set(p["maybe"]))
+    return "as-predicted" if ok else "differs"
 
 
 def signatures(pid, v):
